@@ -299,6 +299,65 @@ def _well_formed(tokens):
     return ok and pos == len(tokens)
 
 
+def h_uncertain_groups(eng, sign):
+    """a parenthesised '(v +/- e)' group is one operand: the text around it evaluates like Python
+    arithmetic with the group replaced by the uncertain number (nominal value of either sign)"""
+    import contextlib
+    import math
+
+    from ..sx.stubs import ufloat_stub
+
+    if eng.symbolic:
+        ureg = regs.default(eng)
+        v, e = eng.real("v"), eng.real("e")
+        lit, num = eng.lit, eng.num
+    else:
+        ureg = regs.float_default()
+        v, e = float(eng.real("v")), float(eng.real("e"))
+        lit, num = repr, float
+    eng.assume(v > 0)
+    eng.assume(e > 0)
+    n = v if sign > 0 else -v
+    g = f"({lit(v)} +/- {lit(e)})" if sign > 0 else f"(-{lit(v)} +/- {lit(e)})"
+    g2 = g.replace("+/-", "±")
+    two, three = num(2), num(3)
+    # (text, nominal value, standard deviation) -- first-order propagation, exact for these forms
+    forms = (
+        ("G ** 2", n * n, two * v * e),
+        ("G^2", n * n, two * v * e),
+        ("G²", n * n, two * v * e),
+        ("H ** 2", n * n, two * v * e),
+        ("3G", three * n, three * e),
+        ("3 G", three * n, three * e),
+        ("G 3", three * n, three * e),
+        ("3 * G", three * n, three * e),
+        ("2 - G", two - n, e),
+        ("2 + G", two + n, e),
+        ("-G", -n, e),
+        ("- G ** 2", -(n * n), two * v * e),
+        ("3 G ** 2", three * n * n, three * two * v * e),
+        ("G ** 2 * 3", three * n * n, three * two * v * e),
+    )
+    with ufloat_stub() if eng.symbolic else contextlib.nullcontext():
+        for tmpl, nv, sv in forms:
+            text = tmpl.replace("G", g).replace("H", g2)
+            lab = f"{tmpl}:sign={sign}"
+            try:
+                q = ureg.parse_expression(text)
+            except (IndexError, ValueError, TypeError, AssertionError, DefinitionSyntaxError) as ex:
+                eng.fail(f"uncertain-group:{lab}:raises-{type(ex).__name__}", stop=False)
+                continue
+            mag = q.magnitude if hasattr(q, "magnitude") else q
+            eng.prove(hasattr(mag, "nominal_value"), f"uncertain-group:{lab}:uncertain")
+            if hasattr(mag, "nominal_value"):
+                if eng.symbolic:
+                    eng.prove(Eq(mag.nominal_value, nv), f"uncertain-group:{lab}:nominal")
+                    eng.prove(Eq(mag.std_dev, sv), f"uncertain-group:{lab}:std")
+                else:
+                    eng.prove(math.isclose(float(mag.nominal_value), float(nv), rel_tol=1e-9, abs_tol=1e-12), f"uncertain-group:{lab}:nominal")
+                    eng.prove(math.isclose(float(mag.std_dev), float(sv), rel_tol=1e-9, abs_tol=1e-12), f"uncertain-group:{lab}:std")
+
+
 def h_ill_formed(eng, seqs):
     import contextlib
 
@@ -563,5 +622,7 @@ def cases(tier, seed):
     out.append(Case("H07.e", "no-execution", M, "h_no_execution", {}, kind="conc"))
     out.append(Case("H07.d", "dangling-operators-under-python-O", M, "h_dangling_operators_optimised", {}, kind="conc"))
     out.append(Case("H07.c", "preprocessors", M, "h_preprocessors", {}, validate=1))
+    for sign in (1, -1):
+        out.append(Case("H07.a", f"uncertain-groups:sign={sign}", M, "h_uncertain_groups", {"sign": sign}, validate=1))
     out.append(Case("H07.obs", "observed", "pvlib.harness.observed", "h_c07", {}, kind="conc"))
     return out
